@@ -25,6 +25,12 @@ CLAIMS["C11"] = ("stateless model checking of the real code: delay-bounded exhau
 CLAIMS["C03"] = ("stateless model checking of the real code under a virtual clock: delay-bounded exhaustive schedule enumeration; completion-time oracle",
     "For every executor layer (and both flat_map stages, warm and cold) and every combinator, every schedule (<= deviation bound) of the ways the underlying work can end (value, exception, cancel issued directly on the inner future, cancel through the derived future) is executed; at quiescence a derived future whose work is terminal must be terminal, and its completion / the next retry / the next hand-over must happen at the virtual instant implied by the configuration (never a fallback timer).",
     "DESIGN.md section 6 C03")
+CLAIMS["C05"] = ("stateless model checking of the real code under a virtual clock: exhaustive parameter product x delay-bounded schedule enumeration, sequential reference model of the retry loop",
+    "The full product of outcome scripts (<=4 attempts) x ExceptionRetryPolicy parameters x base mode is executed (d=0 quick, d<=1 thorough); schedules of 1-2 concurrent or staggered submissions are enumerated to d<=2 (sync-op granularity) / d<=1 (line granularity of retry.py) with custom and raising policies; each run is compared with a reference loop: attempt count, arguments, non-overlap, exact back-off times, policy consultations, completion only after the final attempt with its outcome (same exception object).",
+    "DESIGN.md section 6 C05")
+CLAIMS["C06"] = ("stateless model checking of the real code: delay-bounded exhaustive placement of cancel() over a submission's life",
+    "cancel() from 1-2 threads (also twice) is placed at every scheduling point of a submission's life (queued, throttled, handed over, running, between retries, polling) for every layer and six two-layer stacks, and on combinator outputs; oracles: True is sticky and nothing starts or is re-submitted afterwards, running => False with the callable's outcome, retry never re-submits after any cancel() returned, the request reaches the innermost pending delegate/input, f_nocancel shields.",
+    "DESIGN.md section 6 C06")
 NOT_YET = {}
 
 props = [json.loads(l) for l in open(os.path.join(HERE, "properties.jsonl"))]
